@@ -5,6 +5,13 @@ V = Path(__file__).resolve().parents[1]
 props = [json.loads(l) for l in open(V / "properties.jsonl")]
 
 CLAIMED = {
+ "C05": dict(text="Lean theorems (FP/Props/C05.lean): optimum preservation under added constraints that every feasible point can be mapped into at equal objective; "
+   "feasible set of base++extra is the intersection; fixing through bounds is equivalent to fixing through rows (with C12's exact batch update); search shortcuts "
+   "(greedy, given/guessed weights, accepted only when their route count equals the k under test) leave the search answer unchanged. PARTIAL: that the concrete safe "
+   "sequences/zero-fixes satisfy the preservation hypothesis is C06's safety+incompatibility statement and is not yet proven; it is covered by the metamorphic "
+   "end-to-end oracle (same input, sampled subsets / full cross product of all documented flags, every class: equal solved status and objective vs the all-off baseline).",
+   note="HiGHS optimality/infeasibility proofs trusted on the small metamorphic instances; option conflicts documented as ValueError are skipped.",
+   tech="Lean 4 generic optimum-preservation theorems + metamorphic end-to-end oracle over option subsets", ref="7/C05"),
  "C01": dict(text="Lean theorems (FP/Props/C01.lean) for every satisfying assignment of the DAG path encoding on every well-formed user DAG, any k, any "
    "additional starts/ends: each layer decodes (the successor-following loop terminates within its fuel) to the empty path (only if allowed) or to a simple "
    "route of the user's graph from a source/declared start to a sink/declared end, the layer's variables being exactly the path's indicator; the augmentation "
